@@ -99,3 +99,58 @@ fn witness_c09_stop_then_go() {
     }
     assert_eq!(bad, 0, "{} interrupted searches left the engine's position altered", bad);
 }
+
+/// "An interrupted search still answers with exactly one bestmove taken from the last completed iteration": the search is
+/// deterministic, so the bestmove of an interrupted `go infinite` whose closing info reports depth d must be the bestmove a
+/// fresh engine gives for `go depth d` in the same position.  Positions in which the side to move stands worse (a partial
+/// iteration's placeholder value 0 would look attractive) and better.
+fn interrupted_then_fresh(fen: &str, interrupt_ms: u64) -> Result<(), String> {
+    let (tx, rx) = channel();
+    let mut engine = Engine::new(Arc::new(CommandUciTx::new(tx)), false);
+    engine.accept(UciCommand::UciNewGame);
+    engine.accept(UciCommand::PositionFrom { fen: fen.parse().unwrap(), moves: vec![] });
+    engine.accept(UciCommand::Go { go: Go { infinite: true, ..Go::default() } });
+    std::thread::sleep(Duration::from_millis(interrupt_ms));
+    engine.accept(UciCommand::Stop);
+    let mut last_depth = None;
+    let mut answers = Vec::new();
+    loop {
+        match rx.recv_timeout(Duration::from_millis(if answers.is_empty() { 120_000 } else { 300 })) {
+            Ok(UciTxCommand::Info { info }) => { if let Some(d) = info.depth { last_depth = Some(d); } }
+            Ok(UciTxCommand::BestMove { best_move, .. }) => answers.push(best_move.map(|m| m.to_string())),
+            Ok(_) => {}
+            Err(_) => break,
+        }
+    }
+    if answers.len() != 1 { return Err(format!("fen={:?}: an interrupted search answered with {} bestmove lines", fen, answers.len())); }
+    let d = match last_depth { Some(d) if d >= 1 => d, _ => return Ok(()) };   // interrupted before any iteration completed
+    let (tx2, rx2) = channel();
+    let mut fresh = Engine::new(Arc::new(CommandUciTx::new(tx2)), false);
+    fresh.accept(UciCommand::UciNewGame);
+    fresh.accept(UciCommand::PositionFrom { fen: fen.parse().unwrap(), moves: vec![] });
+    fresh.accept(UciCommand::Go { go: Go { depth: Some(d as u64), ..Go::default() } });
+    let expect = bestmove(&rx2);
+    if answers[0] != expect {
+        return Err(format!("fen={:?} go infinite, stop after {} ms: closing info reports depth {}, bestmove {:?}; a fresh engine's go depth {} answers {:?}", fen, interrupt_ms, d, answers[0], d, expect));
+    }
+    Ok(())
+}
+
+#[test]
+fn witness_c09_bestmove_from_last_completed_iteration() {
+    let mut bad = 0;
+    for (fen, ms) in [
+        ("rnb1kbnr/pppp1ppp/8/4p3/4P3/8/PPPP1PPP/RNBQKBNR b KQkq - 0 2", 700u64),     // black a queen down
+        ("rnb1kbnr/pppp1ppp/8/4p3/4P3/8/PPPP1PPP/RNBQKBNR b KQkq - 0 2", 1300),
+        ("rnb1kbnr/pppp1ppp/8/4p3/4P3/8/PPPP1PPP/RNBQKBNR b KQkq - 0 2", 2100),
+        ("rnb1kbnr/pppp1ppp/8/4p3/4P3/8/PPPP1PPP/RNBQKBNR b KQkq - 0 2", 3300),
+        ("r1b1kbnr/pppp1ppp/2n5/4p3/4P3/5N2/PPPP1PPP/RNBQKB1R w KQkq - 0 3", 1500),   // white a queen up
+        ("r3k2r/ppp2ppp/2n2n2/3pp3/3PP3/2N2N2/PPPQ1PPP/R3K2R b KQkq - 0 10", 1900),   // black a queen down, castling around
+    ] {
+        if let Err(e) = interrupted_then_fresh(fen, ms) {
+            println!("FAILING-INPUT: {}", e);
+            bad += 1;
+        }
+    }
+    assert_eq!(bad, 0);
+}
